@@ -4,6 +4,7 @@ from __future__ import annotations
 import contextlib
 import io
 
+from .. import core
 from ..probe import call
 from ..ref import bits, ppm
 
@@ -167,7 +168,7 @@ def rand_frame(rng, kind=None):
     df = kind or rng.choice((17, 17, 17, 20, 21, 4, 5, 11))
     n = 112 if df in (17, 20, 21) else 56
     # DF11 replies carry the interrogator code (II/SI) overlaid on the parity; 0 only for spontaneous squitters
-    x = bits.downlink(df, rng.getrandbits(n - 29), n, rng.getrandbits(24), rng.choice((0, rng.randrange(1, 80), rng.randrange(1, 16))))
+    x = bits.downlink(df, rng.fill(n - 29), n, rng.fill(24), rng.choice((0, rng.randrange(1, 80), rng.randrange(1, 16))))
     return "%0*X" % (n // 4, x), n
 
 
@@ -226,7 +227,7 @@ def cases(ctx):
     quick = ctx.tier == "quick"
     i = 0
     import random as _r
-    drng = _r.Random(99)
+    drng = core.Rng(99)
     for df in (17, 20, 21, 4, 5, 11):
         for lead in (200, 201):
             c = mkcase(drng, "R1", 2, df)
